@@ -2,6 +2,7 @@ package main
 
 import (
 	"fmt"
+	"go/constant"
 	"go/token"
 	"go/types"
 	"os"
@@ -209,7 +210,7 @@ func ruleR25(p *Prog) []Ob {
 					continue
 				}
 				fl, isK := constInt(c.Call.Args[1])
-				if !isK || fl&int64(os.O_TRUNC) == 0 {
+				if !isK || fl&p.osConst("O_TRUNC", int64(os.O_TRUNC)) == 0 {
 					continue
 				}
 				n++
@@ -1486,4 +1487,19 @@ func (p *Prog) rebuildUnderIndexLock() []Ob {
 		obs = append(obs, Ob{Rule: "R16", Inst: "c:rebuild-under-index-lock", Props: []string{"C11", "C08"}, Pos: "-", Status: Undecided, Msg: "no segment reader method reaches index.Write"})
 	}
 	return obs
+}
+
+// osConst: the value of os.<name> in the analysed program (the open flags differ between operating
+// systems, and the thorough tier analyses other GOOS configurations than the checker's own).
+func (p *Prog) osConst(name string, dflt int64) int64 {
+	if p.SSA != nil {
+		if pkg := p.SSA.ImportedPackage("os"); pkg != nil {
+			if c := pkg.Const(name); c != nil && c.Value != nil && c.Value.Value != nil {
+				if v, ok := constant.Int64Val(constant.ToInt(c.Value.Value)); ok {
+					return v
+				}
+			}
+		}
+	}
+	return dflt
 }
